@@ -3,6 +3,7 @@
 package main
 
 import (
+	"verif/internal/scen/c10"
 	"verif/internal/scen/c11"
 	"verif/internal/scen/c13"
 	"verif/internal/scen/c14"
@@ -10,6 +11,10 @@ import (
 )
 
 func main() {
+	worker.Register(c10.Scans{})
+	worker.Register(c10.AddFields{})
+	worker.Register(c10.March{})
+	worker.Register(c10.March{Fast: true})
 	worker.Register(c11.Scenario{})
 	worker.Register(c13.Scenario{})
 	worker.Register(c14.Scenario{})
